@@ -153,6 +153,28 @@ def s_forward_jump_over_literals(v):
     ]
 
 
+def s_labels_spelled_like_operands(v):
+    """label names are free identifiers: one that begins like a register (R1_LOOP), contains one (xR2) or looks like a bank letter plus text"""
+    a, r = v("a", *I32), v("r", 0, 1)
+    return [
+        Ins("set", [R("R", 0), Lit(r)]),
+        Ins("set", [R("R", 3), Lit(0)]),
+        Ins("bnz", [R("R", 0), Lab("R1_LOOP")]),
+        Ins("add", [R("R", 3), Lit(a), Lit(1)]),
+        Ins("jmp", [Lab("M0_ZERO")]),
+        Lbl("R1_LOOP"),
+        Ins("sub", [R("R", 3), Lit(a), Lit(1)]),
+        Ins("bez", [R("R", 0), Lab("Q2D2")]),
+        Ins("add", [R("R", 3), R("R", 3), Lit(7)]),
+        Lbl("Q2D2"),
+        Lbl("M0_ZERO"),
+        Ins("beq", [R("R", 0), Lit(5), Lab("C15x")]),
+        Ins("add", [R("R", 3), R("R", 3), Lit(2)]),
+        Lbl("C15x"),
+        Ins("ret_reg", [R("R", 3)]),
+    ]
+
+
 def s_fifteen_registers(v):
     a = v("a", *I32)
     prog = [Ins("set", [R("R", i), Lit(100 + i)]) for i in range(15)]
@@ -225,6 +247,7 @@ SCHEMAS = {
     "backward loop to index zero": s_backward_loop_from_index_zero,
     "consecutive labels, label past the end, labels around inserted sets": s_labels_everywhere,
     "forward jumps over instructions with literals": s_forward_jump_over_literals,
+    "labels spelled like registers": s_labels_spelled_like_operands,
     "fifteen R registers named: one scratch register left": s_fifteen_registers,
     "sixteen registers of other banks named before the R registers": s_other_banks_first,
     "allocation instructions with literal and register operands": s_allocation,
